@@ -291,6 +291,15 @@ Theorem ALGO_echo_absorbed : forall g w e en s k w' cs fl,
 Proof. exact mirror_side_no_calls. Qed.
 Print Assumptions ALGO_echo_absorbed.
 
+(* C03, no echo after quiet: in a quiescent world an engine action issues no provider call, changes neither provider's
+   objects nor any entry, and leaves the world quiescent - nothing happens after quiet until a user acts *)
+Theorem ALGO_quiescent_stable : forall g w a w' cs,
+  Inv g w -> quiescent w = true -> (forall sd o, a <> AUser sd o) -> algo_step w a = ROk (w', cs) ->
+  cs = [] /\ quiescent w' = true /\ ents (w_st w') = ents (w_st w) /\
+  (forall sd, ProvModel.p_heap (prov_of w' sd) = ProvModel.p_heap (prov_of w sd)).
+Proof. exact quiescent_stable. Qed.
+Print Assumptions ALGO_quiescent_stable.
+
 (* users act on side sd only (any in-domain history, any schedule) => EVERY provider call the engine issues in the
    whole run - create / upload / delete / rename / mkdir, successful or refused - goes to the other side *)
 Theorem ALGO_origin_untouched : forall t0 lg0 acts sd w cs,
